@@ -28,12 +28,14 @@ theorem parser_table_matches :
     Goflow.Generated.parsePacketLoopBody =
       ["parseConfig.Calls = calls[nextParser.ParserIndex]",
        "parseConfig.LayerCall = callsLayer[nextParser.LayerIndex]",
+       "layersBefore := len(flowMessage.GetFlowMessage().LayerStack)",
        "res, err := nextParser.Parser(flowMessage.GetFlowMessage(), data[offset:], parseConfig)",
        "parseConfig.Layer += 1",
        "if err != nil { return err }",
-       "for-range: custom mapping over nextParser.ConfigKeyList",
+       "recognised := len(flowMessage.GetFlowMessage().LayerStack) > layersBefore",
+       "for-range: custom mapping over nextParser.ConfigKeyList if config != nil && recognised",
        "fm := flowMessage.GetFlowMessage()",
-       "fm.LayerSize = append(fm.LayerSize, uint32(res.Size))",
+       "if recognised { fm.LayerSize = append(fm.LayerSize, uint32(res.Size)) }",
        "if !nextParser.EncapSkip { encapIndex = nextParser.LayerIndex }",
        "if res.NextParser.LayerIndex < encapIndex || (!res.NextParser.EncapSkip && res.NextParser.LayerIndex == encapIndex) { parseConfig.Encapsulated = true }",
        "calls[nextParser.ParserIndex] += 1",
